@@ -596,7 +596,53 @@ func replayNeutralUse(r *Run, fn *ssa.Function, ld *ssa.UnOp) (bool, string) {
 				}
 			}
 			if !okRet {
-				return false, "the value computed by " + p.fnName(fn) + " is not what more() returns"
+				// or it decides a branch of the host: with the helper returning false (checked above), the host may
+				// only close the repeat group and return false
+				site, _ := p.helperSite(fn).(*ssa.Call)
+				if site == nil || site.Parent() != host {
+					return false, "the value computed by " + p.fnName(fn) + " is not what more() returns"
+				}
+				nCont, whyC := 0, ""
+				okC := p.pathsFrom(site.Block(), 200, func(cp *cfgPath, back bool) {
+					if cp.infeasible || whyC != "" || back {
+						return
+					}
+					if v, known := cp.eval(site); known && v {
+						return // the path on which the helper returned true
+					}
+					last := cp.blocks[len(cp.blocks)-1]
+					hret, isRet := last.Instrs[len(last.Instrs)-1].(*ssa.Return)
+					if !isRet {
+						return
+					}
+					nCont++
+					after := false
+					for bi, blk := range cp.blocks {
+						for _, in := range blk.Instrs {
+							if bi == 0 && !after {
+								if in == ssa.Instruction(site) {
+									after = true
+								}
+								continue
+							}
+							if k, c := isStreamCall(in); k != "" {
+								d, isC := constBool(p.resolve(c.Common().Args[len(c.Common().Args)-1]))
+								if k != "invoke:bitStream.endGroup" || !isC || d {
+									whyC = "after the forced stop decided by " + p.fnName(fn) + " the path also calls " + k
+								}
+							}
+						}
+					}
+					if v, isC := constBool(cp.onPath(p.res(hret, 0))); !isC || v {
+						whyC = "after " + p.fnName(fn) + " returned false more() does not return false (" + p.expr(cp.onPath(p.res(hret, 0))) + ")"
+					}
+				})
+				if !okC || whyC != "" || nCont == 0 {
+					if whyC == "" {
+						whyC = "the value computed by " + p.fnName(fn) + " is not what more() returns"
+					}
+					return false, whyC
+				}
 			}
 		}
 		// the other edge flips the ordinary coin
